@@ -209,6 +209,11 @@ func (w *docxW) para(p *logical.Para, ppr string) string {
 	return sb.String()
 }
 
+var offToggles = []string{
+	`<w:vanish w:val="off"/>`, `<w:vanish w:val="false"/>`, `<w:vanish w:val="0"/>`,
+	`<w:b w:val="off"/><w:i w:val="0"/>`, `<w:webHidden w:val="off"/>`, `<w:strike w:val="false"/><w:caps w:val="off"/>`,
+}
+
 func (w *docxW) run(r logical.Run) string {
 	var sb strings.Builder
 	sb.WriteString("<w:r>")
@@ -217,6 +222,19 @@ func (w *docxW) run(r logical.Run) string {
 		sb.WriteString("<w:rPr><w:b/></w:rPr>")
 	case "nest":
 		sb.WriteString("<w:rPr><w:i/></w:rPr>")
+	case "":
+		// toggle properties switched *off* explicitly, in every ST_OnOff spelling
+		// (ECMA-376 Part 1 17.17.4: true/false, 1/0, on/off): the run is ordinary,
+		// visible text. Chosen by a hash of the run's text (the writer draws no numbers).
+		h := uint32(2166136261)
+		for _, it := range r.Items {
+			for i := 0; i < len(it.Text); i++ {
+				h = (h ^ uint32(it.Text[i])) * 16777619
+			}
+		}
+		if k := int(h % 18); k < len(offToggles) {
+			sb.WriteString("<w:rPr>" + offToggles[k] + "</w:rPr>")
+		}
 	}
 	for _, it := range r.Items {
 		switch it.Kind {
